@@ -45,7 +45,8 @@ CTL_TECH = ("TLA+ spec Controller.tla (cluster histories + FullModel oracle) mod
 CTL_NOTE = ("Trusted: TLC; harness/cfgnf (parser + canonicalisation of internal labels); controller-runtime fake client; the harness plays the API "
             "server (generation bumps, event delivery through the real predicates). HAProxy itself is not run.")
 check("C01", "controller", CTL_TECH,
-      "Every history (TLC-simulated over 3 ingress slots x 12 templates, 2 services, 2 secrets, <=3 events per batch; random over an extended "
+      "Tracker.tla (the dirty-set graph partial syncs rest on) is model-checked and bound to pkg/converters/tracker by exact trace validation of "
+      "TLC-proposed call sequences. Every history (TLC-simulated over 3 ingress slots x 12 templates, 2 services, 2 secrets, <=3 events per batch; random over an extended "
       "vocabulary of ~30 annotation sets, tcp services, default backend, secrets, ConfigMap changes, shards) is run incrementally; after each batch "
       "TLC checks Converged (normal form == freshly started controller) and, for the core vocabulary, that the routing tables read from the files "
       "equal Controller!FullModel(cluster). Unstable divergences (nondeterminism) are left to C06.",
